@@ -58,6 +58,47 @@ def run(ctx: Context) -> None:
                      "connectors it keeps the old content, so after `B = connector.assign(A, ...)` neither A nor an alias of A is read again "
                      "(ownership typestate on the CFG; shape/dtype reads are exempt)")
     clause_f(ctx, idx)
+    clause_h(ctx)
+
+
+def clause_h(ctx: Context) -> None:
+    """The NumPy connector runs the numba loop nest, the TensorFlow / JAX connectors (and NumPy at cutoff <= 2) the generic einsum
+    version of the Fock-space recurrence of an interferometer: both must denote the same sum (index-notation normal form)."""
+    from . import _interferometer_recurrence as ir
+    from .. import loopnest as ln
+    ctx.rule("C09h", "the numba loop nest and the generic einsum implementation of calculate_interferometer_on_fock_space denote the same "
+                     "recurrence R[k, i] = 1/H4[k] sum_j H3[i, j] U[H1[k], j] PREV[H2[k], H0[i, j]] (tables named by their position in the "
+                     "helper tuple; same level offsets; loop variables index the axis their range was read from)")
+    try:
+        r = ir.analyse(ctx)
+    except ln.Unreadable as e:
+        ctx.error(f"C09h: {e}; undecided")
+        return
+    nb, ge = r["numba"], r["generic"]
+    fn_n, fn_g = r["numba_fn"], r["generic_fn"]
+    same = nb["nf"] == ge["nf"]
+    key = "calculate_interferometer_on_fock_space|numba == generic"
+    ctx.obligation("C09h", key, same, where=f"{ctx.relpath(fn_n.file)}:{nb['line']}", numba=ln.show(nb["nf"]), generic=ln.show(ge["nf"]))
+    if not same:
+        ctx.violation("C09h", key, fn_g.file, ge["line"],
+                      f"the two implementations of the Fock-space recurrence differ: numba (NumPy connector) computes {ln.show(nb['nf'])}; "
+                      f"the generic version (TensorFlow / JAX connectors, NumPy at cutoff <= 2) computes {ln.show(ge['nf'])}",
+                      construct=ln.show(ge["nf"])[:200])
+    offs = (nb["table_offsets"], nb["prev_offsets"]) == (ge["table_offsets"], ge["prev_offsets"]) and len(nb["table_offsets"]) == 1 \
+        and len(nb["prev_offsets"]) == 1
+    key = "calculate_interferometer_on_fock_space|level offsets"
+    ctx.obligation("C09h", key, offs, where=f"{ctx.relpath(fn_g.file)}:{ge['line']}", numba=[nb["table_offsets"], nb["prev_offsets"]],
+                   generic=[ge["table_offsets"], ge["prev_offsets"]])
+    if not offs:
+        ctx.violation("C09h", key, fn_g.file, ge["line"],
+                      f"the implementations address the helper tables / the previous level with different offsets from the level variable: "
+                      f"numba tables {nb['table_offsets']} previous {nb['prev_offsets']}, generic tables {ge['table_offsets']} previous {ge['prev_offsets']}",
+                      construct="level offsets")
+    for msg in nb["axis_conflicts"]:
+        ctx.violation("C09h", f"calculate_interferometer_on_fock_space|axis|{msg}", fn_n.file, nb["line"],
+                      f"in the numba loop nest {msg}", construct=msg)
+    ctx.obligation("C09h", "calculate_interferometer_on_fock_space|axes", not nb["axis_conflicts"], where=f"{ctx.relpath(fn_n.file)}:{nb['line']}")
+    ctx.require_floor("implementations of the bosonic Fock-space recurrence compared", 2, 2)
 
 
 # ================================================================================================ (a)
